@@ -14,11 +14,13 @@ pub struct AsyncCut {
     pub gave_pending: bool,
     pub out: Vec<u8>,
     pub reads_at_eof: usize,
+    /// a write takes at most this many bytes (a short write, as a socket with a nearly full send buffer gives)
+    pub max_write: usize,
 }
 
 impl AsyncCut {
     pub fn new(data: Vec<u8>, cuts: Vec<usize>, pending: Vec<usize>) -> Self {
-        AsyncCut { data, pos: 0, cuts, pending, delivered_polls: 0, gave_pending: false, out: vec![], reads_at_eof: 0 }
+        AsyncCut { data, pos: 0, cuts, pending, delivered_polls: 0, gave_pending: false, out: vec![], reads_at_eof: 0, max_write: usize::MAX }
     }
 }
 
@@ -55,8 +57,9 @@ impl AsyncRead for AsyncCut {
 
 impl AsyncWrite for AsyncCut {
     fn poll_write(mut self: Pin<&mut Self>, _cx: &mut Context<'_>, buf: &[u8]) -> Poll<std::io::Result<usize>> {
-        self.out.extend_from_slice(buf);
-        Poll::Ready(Ok(buf.len()))
+        let n = buf.len().min(self.max_write);
+        self.out.extend_from_slice(&buf[..n]);
+        Poll::Ready(Ok(n))
     }
     fn poll_flush(self: Pin<&mut Self>, _cx: &mut Context<'_>) -> Poll<std::io::Result<()>> {
         Poll::Ready(Ok(()))
